@@ -422,14 +422,16 @@ func (d *badgerNodeDB) GetWriteLog(ctx context.Context, startRoot, endRoot node.
 					logRoots: append(curItem.logRoots, curItem.endRootHash),
 				}
 				if nextItem.endRootHash.Equal(&startRootHash) {
-					// Path has been found, deserialize and stream write logs.
-					var index int
+					// Path has been found, deserialize and stream write logs. The path was collected
+					// while walking from the end root back to the start root, so the hops must be
+					// streamed in reverse order (oldest hop first).
+					index := len(nextItem.logKeys) - 1
 					discardTx = false
 					// Close iterator now as ReviveHashedDBWriteLogs can close the txn immediately.
 					it.Close()
 					return api.ReviveHashedDBWriteLogs(ctx,
 						func() (node.Root, api.HashedDBWriteLog, error) {
-							if index >= len(nextItem.logKeys) {
+							if index < 0 {
 								return node.Root{}, nil, nil
 							}
 
@@ -454,7 +456,7 @@ func (d *badgerNodeDB) GetWriteLog(ctx context.Context, startRoot, endRoot node.
 								return node.Root{}, nil, err
 							}
 
-							index++
+							index--
 							return root, log, nil
 						},
 						func(root node.Root, h hash.Hash) (*node.LeafNode, error) {
